@@ -168,6 +168,25 @@ def run(chk):
             chk.add(Finding("R03-noinclude", "R03-noinclude::shape", "tokenize() no longer collects the positions of Include tokens", b.where()))
     chk.rule("R03-noinclude", "tokenize() builds its result from the token ranges between Include directives", n, floor=1)
 
+    # R03-sentinel: loops that replace an out-of-range read by a constant instead of leaving must leave under that constant
+    from . import consteval
+    ns = 0
+    for fid in sorted(scope):
+        b = prog.bodies[fid]
+        if b.file == "a2lfile/src/specification.rs":
+            continue
+        for head, blocks, sb, cb, l, c in consteval.sentinel_sites(b):
+            ns += 1
+            bad = consteval.sentinel_spins(prog, b, head, blocks, cb)
+            if bad:
+                chk.add(Finding("R03-sentinel", "R03-sentinel::%s::%s" % (mir.strip_generics(fid), c), "%s: at the end of the input the loop substitutes the constant %s for the missing byte, and with that constant an iteration can come back to the loop head in the same state (blocks %s): the loop never ends (hang / unbounded scan position)" % (fid, c, "->".join(str(x) for x in bad[0][:14])), b.where(b.blocks[cb]["s"][0]["ln"])))
+    chk.rule("R03-sentinel", "loops on the load path that substitute a constant for a read past the end: constant-folded iteration leaves the loop", ns, floor=1)
+
+    # R03-fileid: the audited subtraction `cur_line - prev_line` in get_line_offset (and the token text slices) rely on every file
+    # having its own id, so that tokens with one id are in line order
+    from . import c16
+    c16.r16_fileid(chk, rule="R03-fileid")
+
     # ------------------------------------------------------------------ R03-unwind
     n = 0
     for fid in sorted(scope):
